@@ -373,6 +373,14 @@ pub fn eval_relation<'a>(
         let xfer = cast_transfer(eval_any(ctx, x, AnnRef::default())?);
         for (m, b) in xfer.methods {
             if b {
+                // A relation declares each of its methods once.
+                if xfers[m].is_some() {
+                    return Err(
+                        Error::new(Kind::InvalidIdentifier, "method already exists")
+                            .with(&m)
+                            .at(x.span()),
+                    );
+                }
                 xfers[m] = Some(xfer.clone());
             }
         }
